@@ -40,8 +40,8 @@ JOBS = int(os.environ.get("VERIF_JOBS", "12"))
 KINDS = ["mdef", "means", "variances", "tmat", "sendump", "mixw", "lda", "featparams"]
 FNAME = {"mdef": "mdef", "means": "means", "variances": "variances", "tmat": "transition_matrices", "sendump": "sendump",
          "mixw": "mixture_weights", "lda": "feature_transform", "featparams": "feat_params.json"}
-ASAN = ("exitcode=77:detect_leaks=1:allocator_may_return_null=1:abort_on_error=0:max_allocation_size_mb=3072:"
-        "hard_rss_limit_mb=6144:detect_odr_violation=0")
+ASAN = ("exitcode=77:detect_leaks=1:allocator_may_return_null=1:abort_on_error=0:max_allocation_size_mb=1024:"
+        "hard_rss_limit_mb=4096:detect_odr_violation=0")
 MINI_GRAM = "#JSGF V1.0;\ngrammar g;\npublic <g> = (a | sa)+;\n"
 BIG_GRAM = "#JSGF V1.0;\ngrammar g;\npublic <g> = go (forward | backward) ten (meters | miles);\n"
 BIG_DICT = {"en-us": "go G OW\nforward F AO R W ER D\nbackward B AE K W ER D\nten T EH N\nmeters M IY T ER Z\nmiles M AY L Z\n"}
@@ -130,7 +130,7 @@ def run_exec(drv, ex, work, timeout=120):
         e = json.loads(ln)
         if e["e"] == "begin":
             inside = e["what"]
-        elif e["e"] in ("load", "reload"):
+        elif e["e"] in ("load", "reload", "decode"):
             inside = None
     ex.inside = inside
     leak_only = "ERROR: LeakSanitizer" in r.err and "ERROR: AddressSanitizer" not in r.err and "runtime error:" not in r.err
@@ -161,20 +161,30 @@ def run_all(drv, execs, work, jobs=JOBS):
         return list(pool.map(lambda e: run_exec(drv, e, work), execs))
 
 
+def count(stats, key, ex):
+    k = stats["keys"].setdefault(key, {"n": 0, "examples": []})
+    k["n"] += 1
+    name = "%s/%s %s" % (ex.meta["name"], ex.meta["kind"], ex.meta["dmg"])
+    if len(k["examples"]) < 8 and name not in k["examples"]:
+        k["examples"].append(name)
+
+
 def report(ctx, execs, stage, prefix=()):
     """sanitizer findings directly, everything else through TLC.  Returns statistics."""
     rep = ctx.report
-    stats = {"executions": len(execs), "refused": 0, "loaded": 0, "fatal": 0, "crash": 0, "leak": 0, "fatal_sites": {}}
+    stats = {"executions": len(execs), "refused": 0, "loaded": 0, "fatal": 0, "crash": 0, "leak": 0, "fatal_sites": {}, "keys": {}}
     chunks, by_id = [], {}
     for ex in execs:
         by_id[ex.eid] = ex
+        rep.evaluations += 1
         if ex.cls in ("crash", "leak"):
             stats[ex.cls] += 1
             key = crash_key(ex.run)
-            if ex.cls == "crash" and ex.inside == "reload":
-                key = key + ":while-loading-the-intact-model-afterwards"
+            if ex.cls == "crash" and ex.inside in ("reload", "decode"):
+                key = key + (":while-loading-the-intact-model-afterwards" if ex.inside == "reload" else ":while-decoding-with-the-intact-model-afterwards")
+            count(stats, key, ex)
             rep.violation(key, "%s, %s %s [%s, %s]: %s" % (stage, ex.meta["kind"], ex.meta["dmg"], ex.meta["name"], ex.meta["mode"],
-                                                           ex.run.why()[:500]), write_replay(ctx, ex))
+                                                           ex.run.why()[:500]), write_replay(ctx, ex, key))
             if ex.cls == "crash":
                 continue
         if ex.cls == "fatal":
@@ -186,35 +196,73 @@ def report(ctx, execs, stage, prefix=()):
             if ln.startswith('{"e":"load"'):
                 stats["loaded" if json.loads(ln)["ret"] == 1 else "refused"] += 1
         chunks.append((ex.eid, lines))
-        rep.evaluations += len(lines)
-    acc, fails, results = tracecheck.validate(SPEC, "ModelTrace.tla", "ModelTrace.cfg", chunks, ctx.work, timeout=1500, max_fail=60,
+    acc, fails, results = tracecheck.validate(SPEC, "ModelTrace.tla", "ModelTrace.cfg", chunks, ctx.work, timeout=1500, max_fail=3,
                                               heap="6g", prefix=list(prefix))
     for r in results:
         rep.add_tlc("ModelTrace(%s)" % stage, r, mode="trace-validation")
-        for nl in re.findall(r'<<"NOTE", "([^"]+)", (\d+)>>', r.out)[:5]:
-            print("NOTE: %s at trace line %s (%s)" % (nl[0], nl[1], stage))
-    rep.traces += acc
-    for f in fails:
-        ex = by_id[f.exec_id]
-        clause = f.clause or "unexplained-event"
+    if fails:
+        raise tlc.ModelError("trace of %s not explained by ModelTrace at event %d: %s" % (fails[0].exec_id, fails[0].local_line, fails[0].event[:300]))
+    # clauses are soft (the trace goes on): map the printed line numbers back to executions
+    starts, n = [], len(prefix)
+    for eid, lines in chunks:
+        starts.append((n, eid, lines))
+        n += len(lines)
+
+    def owner(line):
+        lo, hi = 0, len(starts) - 1
+        while lo < hi:
+            mid = (lo + hi + 1) // 2
+            if starts[mid][0] <= line - 1:
+                lo = mid
+            else:
+                hi = mid - 1
+        return starts[lo]
+
+    out = results[0].out if results else ""
+    notes = re.findall(r'<<"NOTE", "([^"]+)", (\d+)>>', out)
+    for nl in notes[:5]:
+        st = owner(int(nl[1]))
+        print("NOTE: %s: %s in %s: %s" % (stage, nl[0], st[1], st[2][int(nl[1]) - 1 - st[0]][:200]))
+    stats["notes"] = len(notes)
+    failed = set()
+    for clause, line in re.findall(r'<<"CLAUSE-FAILED", "([^"]+)", (\d+)>>', out):
+        st = owner(int(line))
+        ex = by_id[st[1]]
+        event = st[2][int(line) - 1 - st[0]]
+        failed.add(ex.eid)
         if clause == "harness-checksum":
-            raise tlc.ModelError("the driver's checksum routine disagrees with the specification: %s" % f.event[:300])
+            raise tlc.ModelError("the driver's checksum routine disagrees with the specification: %s" % event[:300])
         if clause == "must-refuse":
             key = "must-refuse:%s:%s" % (ex.meta["kind"], damage_group(ex.meta["cls"]))
             what = "the directory is not a model (%s) but decoder_init() loaded it" % ex.meta.get("why", "?")
         else:
             key = "%s:after:%s:%s" % (clause, ex.meta["kind"], damage_group(ex.meta["cls"]))
             what = "clause %s fails" % clause
+        count(stats, key, ex)
         rep.violation(key, "%s, %s %s [%s, %s]: %s: %s" % (stage, ex.meta["kind"], ex.meta["dmg"], ex.meta["name"], ex.meta["mode"], what,
-                                                           f.event.strip()[:300]), write_replay(ctx, ex))
+                                                           event.strip()[:300]), write_replay(ctx, ex, key))
+    acc = len(chunks) - len(failed)
+    rep.traces += acc
     stats["accepted"] = acc
     return stats
 
 
-def write_replay(ctx, ex):
+_REPLAYS = {}
+
+
+def write_replay(ctx, ex, key=None):
+    """a replay file for the first executions of every key only"""
+    if ctx.replay:
+        return ctx.replay
+    if key is not None:
+        _REPLAYS.setdefault(key, [])
+        if len(_REPLAYS[key]) >= 3:
+            return _REPLAYS[key][0]
     p = os.path.join(ctx.replays, "%s.json" % re.sub(r"[^\w.-]", "_", ex.eid)[:150])
     with open(p, "w") as f:
         json.dump(ex.meta, f)
+    if key is not None:
+        _REPLAYS[key].append(p)
     return p
 
 
@@ -379,6 +427,16 @@ def run(ctx):
         return
     stats, n_cases = run_mini(ctx, drv, exported, quick, rng)
     rep.notes["miniature"] = stats
+    from checks import c17_bundled
+    bstats, nb = c17_bundled.run_stage(ctx, drv, quick, rng)
+    rep.notes["bundled"] = bstats
+    rep.notes["bundled_cases_derived"] = nb
+    for stage, st in (("miniature", stats), ("bundled", bstats)):
+        print("C17 %s models: %d executions: %d refused, %d loaded, %d ended by the library's fatal-error exit, %d crashed, %d leaked; "
+              "%d accepted by ModelTrace" % (stage, st["executions"], st["refused"], st["loaded"], st["fatal"], st["crash"], st["leak"], st["accepted"]))
+        if st["fatal_sites"]:
+            print("NOTE: %s models: the process was ended by E_FATAL / allocation failure while reading a damaged directory (counted as a report "
+                  "of failure, see assumptions) at: %s" % (stage, ", ".join("%s x%d" % kv for kv in sorted(st["fatal_sites"].items()))))
     rep.exhaustive = not quick
     rep.rule = ("executions = damaged model directories derived by TLC from the format specification; non-trivial = distinct "
                 "(file kind, refusal reason) pairs among executed must-refuse cases plus distinct (file kind, damage class) pairs "
